@@ -206,7 +206,7 @@ def handleSign (prop : String) (j impl : Json) : E Json := do
   let isRemote := match r.signer with | some s => !s.isLocal | none => false
   let kml := match fldOpt (← fld j "req") "keyMatchesLeaf" with | some (.bool b) => b | _ => true
   let (configured, tsEnv) ← tsConfigOf (← fld j "req")
-  let verdict ← if prop == "C15" then monitorTs fmt r configured tsEnv res impl else monitorSign prop res isRemote kml impl
+  let verdict ← if prop == "C15" || prop == "C14" then monitorTs fmt r configured tsEnv res impl else monitorSign prop res isRemote kml impl
   let tsObs : List (String × Json) :=
     if (fldOpt (← fld j "req") "ts").isSome && (fldOpt impl "tsa_contacted").isSome then
       [("tsa_contacted", jnat (Timestamp.contacted fmt r configured tsEnv)),
